@@ -59,13 +59,13 @@ theorem cfgNv_other (s : Scheme) (hs : s.blastFamily = false) (v0 : α) :
     cases op <;> simp [cfgNv, hs, cfgNv_other s hs v0 ops]
 
 theorem construct_ok {s : Scheme} {c : ChanArg α} {o : Obj α} (h : construct s c = .ok o) :
-    o.scheme = s ∧ o.nv = 0 ∧ storeChan s c = .ok o.chan := by
+    o.scheme = s ∧ o.nv = 0 ∧ ∃ ch, storeChan s c = .ok ch ∧ o.chan = some ch := by
   unfold construct at h
   cases hc : storeChan s c with
   | ok ch =>
     rw [hc] at h
     cases h
-    exact ⟨rfl, rfl, rfl⟩
+    exact ⟨rfl, rfl, ch, rfl, rfl⟩
   | error e => rw [hc] at h; cases h
 
 theorem run_scheme (K : Kernels α) (o : Obj α) (ops : List (Op α)) : (run K o ops).scheme = o.scheme := by
@@ -101,36 +101,59 @@ end
 
 /-- after any history a Blast / MRC object whose configured noise variance is not positive
     decodes the noise-free channel output of what it encodes back to the data -/
-theorem blast_obj_roundtrip {n : Nat} (K : Kernels ℂ) (o : Obj ℂ)
+theorem blast_obj_roundtrip {n : Nat} (K : Kernels ℂ) (o : Obj ℂ) (c : Chan ℂ) (hoc : o.chan = some c)
     (hs : o.scheme = .blast ∨ o.scheme = .mrc)
-    (hr : FullColRank o.chan.H) (hp : IsPinv o.chan.H (K.pinv o.chan.H)) (hnv : ¬ 0 < o.nv.re)
-    (x : Vec ℂ n) (E : Mat ℂ o.chan.nt (n / o.chan.nt))
-    (hE : (step K o (.encode n x)).2 = .mat o.chan.nt (n / o.chan.nt) E) :
-    ∃ d : Vec ℂ (o.chan.nt * (n / o.chan.nt)),
-      (step K o (.decode o.chan.nr (n / o.chan.nt) (matMul o.chan.H E))).2 = .vec _ d ∧
-      ∀ (j : Nat) (hj : j < n) (hj' : j < o.chan.nt * (n / o.chan.nt)), d ⟨j, hj'⟩ = x ⟨j, hj⟩ := by
-  have hEnc : blastEncode o.chan.nt x = .ok E := by
+    (hr : FullColRank c.H) (hp : IsPinv c.H (K.pinv c.H)) (hnv : ¬ 0 < o.nv.re)
+    (x : Vec ℂ n) (E : Mat ℂ c.nt (n / c.nt))
+    (hE : (step K o (.encode n x)).2 = .mat c.nt (n / c.nt) E) :
+    ∃ d : Vec ℂ (c.nt * (n / c.nt)),
+      (step K o (.decode c.nr (n / c.nt) (matMul c.H E))).2 = .vec _ d ∧
+      ∀ (j : Nat) (hj : j < n) (hj' : j < c.nt * (n / c.nt)), d ⟨j, hj'⟩ = x ⟨j, hj⟩ := by
+  have hEnc : blastEncode c.nt x = .ok E := by
     apply outOfExcept_mat
-    rcases hs with h | h <;> simpa [step, encodeOf, h] using hE
-  refine ⟨blastDecode (blastFilterK K o.chan.H o.nv) (matMul o.chan.H E), ?_, ?_⟩
-  · rcases hs with h | h <;> simp [step, decodeOf, h]
+    rcases hs with h | h <;> simpa [step, encodeOf, h, hoc] using hE
+  refine ⟨blastDecode (blastFilterK K c.H o.nv) (matMul c.H E), ?_, ?_⟩
+  · rcases hs with h | h <;> simp [step, decodeOf, h, hoc]
   · intro j hj hj'
-    have hp' : IsPinv o.chan.H (K.pinv o.chan.H) := hp
     unfold blastFilterK
-    -- the filter is the ZF branch
     obtain ⟨hNt, hm, hEm⟩ := blastEncode_ok hEnc
     have h1 := hp.hgh
-    have hGH : toM (K.pinv o.chan.H) * toM o.chan.H = 1 := by
+    have hGH : toM (K.pinv c.H) * toM c.H = 1 := by
       c04_matrix at h1
       exact pinv_left_inv _ _ hr h1
-    have key : matMul (blastFilter o.nv (K.pinv o.chan.H)
-        (K.solve (mmseLhs o.chan.H o.nv) (mmseRhs o.chan.H))) (matMul o.chan.H E) = reshapeF o.chan.nt x hm := by
+    have key : matMul (blastFilter o.nv (K.pinv c.H)
+        (K.solve (mmseLhs c.H o.nv) (mmseRhs c.H))) (matMul c.H E) = reshapeF c.nt x hm := by
       apply toM_inj
       rw [toM_matMul, toM_matMul, toM_blastFilter_zf o.nv hnv, hEm]
       exact scaled_roundtrip _ _ _ _ (sqrtNat_ne_zero hNt) hGH
     unfold blastDecode
     rw [key]
-    exact flattenF_reshapeF o.chan.nt x hm j hj hj'
+    exact flattenF_reshapeF c.nt x hm j hj hj'
+
+/-- a call that raises leaves the object exactly as it was -/
+theorem step_err_state {α : Type} [Zero α] [One α] [Add α] [Sub α] [Mul α] [Div α] [Neg α] [NatCast α]
+    [CScalar α] (K : Kernels α) (o : Obj α) (op : Op α) (e : PyErr)
+    (h : (step K o op).2 = .err e) : (step K o op).1 = o := by
+  cases op with
+  | setChannel c =>
+    simp only [step] at h ⊢
+    cases hc : storeChan o.scheme c with
+    | ok ch => rw [hc] at h; cases h
+    | error e' => rfl
+  | setNoiseVar v =>
+    simp only [step] at h ⊢
+    cases hb : o.scheme.blastFamily with
+    | true =>
+      rw [hb] at h
+      simp only [if_true] at h ⊢
+      cases hv : setNoiseVar v with
+      | ok x => rw [hv] at h; cases h
+      | error e' => rfl
+    | false => simp
+  | encode n x => rfl
+  | decode nr L Y => rfl
+  | filters v => rfl
+  | sinr v => rfl
 
 end Pf
 end PyPhysim.C04
